@@ -40,6 +40,23 @@ def fresh_each_time(f):
     return b
 
 
+def resumed(it):
+    """an iterator that was advanced with next() and left by a `break` goes on where it was when a loop takes it up again"""
+    items = []
+    for _ in range(2):
+        x = next(it, None)
+        if x is None: return items
+        items.append(x)
+    for x in it:
+        items.append(x)
+        if len(items) == 5: break
+    if len(items) == 5:
+        import itertools
+        items.extend(itertools.islice(it, 3))
+        items.extend(list(it))
+    return items
+
+
 def run(line):
     p = line.split(" ")
     op = p[0][3:]
@@ -53,6 +70,8 @@ def run(line):
             for t in it:
                 items.append(t); next(other, None)
             out = ",".join("%d:%d" % t for t in items)
+        elif len(line) % 3 == 1:
+            out = ",".join("%d:%d" % t for t in resumed(it))
         else:
             out = ",".join("%d:%d" % t for t in it)
         assert next(iter(it), None) is None
@@ -66,6 +85,8 @@ def run(line):
             for t in it:
                 items.append(t); next(other, None)
             return ",".join("%d:%d:%d" % t for t in items)
+        if len(line) % 3 == 1:
+            return ",".join("%d:%d:%d" % t for t in resumed(it))
         return ",".join("%d:%d:%d" % t for t in it)
     if op == "dec":
         return pk.KmerGenerator("A", int(p[1])).to_acgt(int(p[2]))
